@@ -581,6 +581,52 @@ impl Scenario for C05 {
     fn shrink(case: &Case05) -> Vec<Case05> {
         shrink05(case)
     }
+    /// Closing pass (a complete sweep of a fault parameter, not a seeded
+    /// run): every 16-bit value of each enumerated / dispatching field of a
+    /// non-first AVP record, real receiver versus reference receiver.
+    fn extra(_tier: Tier, _seed: u64, obs: &mut Obs) -> Vec<(serde_json::Value, Failure)> {
+        let mut out = Vec::new();
+        let mut seen = std::collections::BTreeSet::new();
+        let mt = raw_record(AVP_M, 0, 0, &[0, 6]);
+        for field in 0..6u8 {
+            for x in 0..=65535u16 {
+                let xb = x.to_be_bytes();
+                let rec = match field {
+                    // message-type code
+                    0 => raw_record(AVP_M, 0, 0, &xb),
+                    // proxy-authen type
+                    1 => raw_record(AVP_M, 0, 29, &xb),
+                    // result-code error type (with and without message)
+                    2 => raw_record(AVP_M, 0, 1, &[0, 1, xb[0], xb[1]]),
+                    // result code itself (kept raw)
+                    3 => raw_record(AVP_M, 0, 1, &[xb[0], xb[1], 0, 2, b'm']),
+                    // attribute type with a generous payload
+                    4 => raw_record(AVP_M, 0, x, &[0x41; 32]),
+                    // vendor id
+                    _ => raw_record(AVP_M, x, 6, &[0, 7]),
+                };
+                let mut b = vec![0x13, 0x20, 0, 0, 0, 1, 0, 2, 0, 3, 0, 4];
+                b.extend_from_slice(&mt);
+                b.extend_from_slice(&rec);
+                let l = b.len() as u16;
+                b[2..4].copy_from_slice(&l.to_be_bytes());
+                let case = Case05::Msg {
+                    bytes: b,
+                    opts: 7,
+                    reader: ReaderCfg::Real,
+                    dc_seed: x as u64,
+                };
+                obs.evaluations += 1;
+                if let Err(f) = exec_c05(&case, obs) {
+                    if seen.insert(format!("{}-{}", f.signature(), field)) && out.len() < 6 {
+                        out.push((serde_json::to_value(&case).unwrap(), f));
+                    }
+                }
+            }
+        }
+        obs.add("probe:code-field-sweep-6x65536", 1);
+        out
+    }
     fn meta() -> Meta {
         Meta {
             rule: "each run: 4-10 in-flight messages from the reference sender (canonical and foreign non-canonical control messages over the run's swarm, data messages over all layouts, control messages assembled from good and bad AVP records, grammar fragments, garbage), 40 % of them hit by one or two transport faults (truncate, bit flips anywhere / in headers, message Length, AVP length, vendor id, attribute type, offset size, record drop/dup/swap, payload-head overwrite, trailing octets); every delivery goes to the real decoder and to the reference decoder under all 8 option sets (plus its AVP region to try_read_greedy / spec_decode_avps) through a PRNG reader back-end. Oracle: Ok on one side iff Ok on the other; values equal field by field; for accepted inputs a second delivery with every bit the reference decoder did not name re-randomised must decode to the same value. Bitmask accessors are compared with their own calibrated bits on PRNG words. distinct_nontrivial = distinct delivered octet strings.",
